@@ -33,6 +33,40 @@ def fmt_f(t):
     return ip + "." + (fp + "000000")[:6]
 
 
+def des_wiring_violations(drv, bundles, pid, limit=None):
+    """the semantic oracle alone, for other checks (C02): what the .des forces on the program's structures vs what the source
+    denotes.  Yields violation dicts with signatures `<pid>:des-…`."""
+    reqs, keep = [], []
+    for tag, b in bundles[:limit]:
+        r = impl.compile_bundle(b, "des")
+        if not r["ok"]:
+            continue
+        rq = progen.compile_request(b, "pil", anon=0); rq["op"] = "src-denote"
+        reqs.append(rq); keep.append((b, r))
+    out = []
+    for (b, r), g in zip(keep, drv.call_many(reqs)):
+        if "ok" not in g:
+            continue
+        inp = {"files": b.texts, "entry": b.entry, "includes": b.includes}
+        cmd = "pepper-compiler --des " + b.entry
+        d = pilio.canon_design(g["ok"])
+        try:
+            B, dstructs, bounds = semantics.system_of_des(r["text"])
+        except (ValueError, KeyError, IndexError) as e:
+            out.append({"what": "emitted .des is not well formed: %s" % e, "input": inp, "observed": r["text"], "sig": pid + ":des-invalid", "cmd": cmd})
+            continue
+        A = semantics.system_of_design(d)
+        names = [s_[0] for s_ in d["structs"]]
+        fa, fb = A.forced(names), B.forced(names)
+        if fa["conflict"] != fb["conflict"] or (not fa["conflict"] and fa != fb):
+            out.append({"what": "in the .des specification the ports are not tied to their signals as the source says (forced equalities / "
+                                "complementarities / allowed bases on the program's structures differ)", "input": inp,
+                        "observed": {"classes_only_in_des": sorted(fb["classes"] - fa["classes"])[:2],
+                                     "classes_only_in_source": sorted(fa["classes"] - fb["classes"])[:2]},
+                        "des": r["text"], "sig": pid + ":des-not-equivalent", "cmd": cmd})
+    return out, len(keep)
+
+
 def run(st, tier, seed):
     res = Result("C03")
     res.rule = ("component and system programs from the shared generator (as C01/C02), compiled with the .des back-end; "
